@@ -199,6 +199,10 @@ class SimKernel:
                     for c in self.cpu_ids}
         for c, row in (cfg.get("cpu_ticks") or {}).items():
             self.cpu[int(c)] = list(row)
+        # time accumulated by possible-but-offline CPUs: part of the first
+        # ("cpu") line of /proc/stat, which is summed over possible CPUs,
+        # but of no cpuN line
+        self.cpu_offline = list(cfg.get("cpu_offline") or [0] * 10)
         self.stat_misc = dict(intr=12345, ctxt=67890, softirq=4242,
                               processes=999)
         self.stat_misc.update(cfg.get("stat_misc") or {})
@@ -945,7 +949,7 @@ class SimKernel:
 
     def render_proc_stat(self):
         nf = self.ncpu_fields
-        tot = [0] * 10
+        tot = list(self.cpu_offline)
         for c in self.cpu_ids:
             for i, v in enumerate(self.cpu[c]):
                 tot[i] += v
